@@ -666,8 +666,31 @@ def twice_cases():
                    "expect": "accept", "attrs": {"item_delimiter": expected}, "label": "item delimiter|declared-twice"}
 
 
+def context_cases():
+    """A value that is not in the documented set of a character property stays refused when ANOTHER property of the
+    same format holds that very value (the sets do not depend on each other)."""
+    table = value_table()
+    names = ("escape character", "quote character", "decimal separator", "thousands separator")
+    for name in names:
+        refused = sorted(set(value for cls, value, expect, attrs in table[name] if expect == "refuse" and len(value) == 1))
+        for other in names + ("item delimiter",):
+            if other == name:
+                continue
+            taken = set(value for cls, value, expect, attrs in table.get(other, []) if expect == "accept")
+            if other == "item delimiter":
+                taken = set(refused) - set("0123456789 ")
+            for value in refused:
+                if value in taken:
+                    for via in ("direct", "cid"):
+                        first = other if via == "direct" else other.capitalize()
+                        yield {"part": "context", "via": via, "format": "delimited",
+                               "props": [[first, value], [name if via == "direct" else name.capitalize(), value]],
+                               "expect": "refuse", "attrs": {}, "label": "%s|foreign-value-held-by-%s" % (name, other)}
+
+
 def all_cases():
-    for producer in (spelling_cases, applicability_cases, value_cases, consistency_cases, default_cases, twice_cases):
+    for producer in (spelling_cases, applicability_cases, value_cases, consistency_cases, default_cases, twice_cases,
+                     context_cases):
         for case in producer():
             yield case
 
